@@ -29,6 +29,9 @@ logger = get_logger(__name__)
 # Connection timeout in seconds
 REQUEST_TIMEOUT = 30.0
 
+# Maximum size of the <META> field of a response header in bytes
+MAX_META_SIZE = 1024
+
 
 class GeminiServerProtocol(asyncio.Protocol):
     """Server-side protocol for handling Gemini and Titan requests.
@@ -82,6 +85,8 @@ class GeminiServerProtocol(asyncio.Protocol):
         self.peer_name: tuple[str, int] | None = None
         self.request_start_time: float | None = None
         self.timeout_handle: asyncio.TimerHandle | None = None
+        # One response per connection: set as soon as a response is being written
+        self.response_sent = False
 
         # Titan-specific state
         self.titan_request: TitanRequest | None = None
@@ -243,7 +248,7 @@ class GeminiServerProtocol(asyncio.Protocol):
         Args:
             response: The response to send.
         """
-        if not self.transport:
+        if not self.transport or self.response_sent:
             return
 
         # Calculate request duration
@@ -261,20 +266,52 @@ class GeminiServerProtocol(asyncio.Protocol):
             duration_ms=round(duration_ms, 2),
         )
 
-        # Build response header: <STATUS><SPACE><META><CRLF>
-        header = f"{response.status} {response.meta}\r\n"
-        self.transport.write(header.encode("utf-8"))
+        # Serialise first: nothing is written unless the whole response can be
+        self.response_sent = True
+        header, body = self._encode_response(response)
+        try:
+            self.transport.write(header)
+            # Send body if present (only for 2x success responses)
+            if body:
+                self.transport.write(body)
+        finally:
+            # Close connection (Gemini/Titan: one request per connection)
+            self.transport.close()
 
-        # Send body if present (only for 2x success responses)
-        # FIX: Handle both text (str) and binary (bytes) content
-        if response.body:
-            if isinstance(response.body, bytes):
-                self.transport.write(response.body)
-            else:
-                self.transport.write(response.body.encode("utf-8"))
+    @staticmethod
+    def _encode_response(response: GeminiResponse) -> tuple[bytes, bytes]:
+        """Serialise a response into header and body bytes.
 
-        # Close connection (Gemini/Titan: one request per connection)
-        self.transport.close()
+        Whatever a handler produced, the result is exactly one well-formed header
+        line (two-digit status 10-69, one space, a META of at most 1024 bytes without
+        CR or LF, CRLF) and a body only for 2x responses.
+
+        Args:
+            response: The response to serialise.
+
+        Returns:
+            Tuple of (header bytes, body bytes).
+        """
+        status, meta, body = response.status, response.meta, response.body
+        try:
+            meta_bytes = meta.encode("utf-8")
+            body_bytes = b""
+            if 20 <= status <= 29 and body:
+                # Text (str) is sent as UTF-8, binary (bytes) as it is
+                body_bytes = body if isinstance(body, bytes) else body.encode("utf-8")
+        except Exception:
+            return b"40 Server error: response cannot be encoded\r\n", b""
+
+        if not 10 <= status <= 69:
+            return b"40 Server error: invalid status code\r\n", b""
+
+        if b"\r" in meta_bytes or b"\n" in meta_bytes or len(meta_bytes) > MAX_META_SIZE:
+            if status < 40:
+                return b"40 Server error: malformed response header\r\n", b""
+            # Keep the failure class, drop the text that cannot go on the wire
+            meta_bytes = b"Error"
+
+        return f"{status} ".encode("utf-8") + meta_bytes + b"\r\n", body_bytes
 
     def _send_error_response(self, status: StatusCode, message: str) -> None:
         """Send an error response and close the connection.
@@ -302,9 +339,7 @@ class GeminiServerProtocol(asyncio.Protocol):
                 duration_ms=round(duration * 1000, 2),
             )
             # Send timeout response
-            response = "40 Request timeout\r\n"
-            self.transport.write(response.encode("utf-8"))
-            self.transport.close()
+            self._send_error_response(StatusCode.TEMPORARY_FAILURE, "Request timeout")
 
     def _route_request(self, request: GeminiRequest, client_ip: str) -> None:
         """Route the request and send response.
@@ -428,10 +463,8 @@ class GeminiServerProtocol(asyncio.Protocol):
             allow, error_response = task.result()
 
             if not allow:
-                # Middleware rejected request - send error response
-                if self.transport and error_response:
-                    self.transport.write(error_response.encode("utf-8"))
-                    self.transport.close()
+                # Middleware rejected request - send its response
+                self._send_middleware_refusal(error_response)
                 return
 
             # Middleware allowed request - continue routing
@@ -445,6 +478,24 @@ class GeminiServerProtocol(asyncio.Protocol):
                 exception_type=type(e).__name__,
             )
             self._send_error_response(StatusCode.TEMPORARY_FAILURE, "Middleware error")
+
+    def _send_middleware_refusal(self, error_response: str | None) -> None:
+        """Send the response a middleware component refused the request with.
+
+        Components answer with a raw header line ("<STATUS> <META>\\r\\n"). It goes
+        through the same serialisation as every other response, so a component that
+        returns nothing, or something that is not a header line, still results in
+        exactly one well-formed refusal.
+
+        Args:
+            error_response: The header line returned by the component, if any.
+        """
+        status, meta = StatusCode.TEMPORARY_FAILURE.value, "Request refused"
+        if error_response and error_response.endswith("\r\n"):
+            code, sep, text = error_response.removesuffix("\r\n").partition(" ")
+            if sep and len(code) == 2 and code[0] in "123456" and code[1] in "0123456789":
+                status, meta = int(code), text
+        self._send_response(GeminiResponse(status=status, meta=meta))
 
     def connection_lost(self, exc: Exception | None) -> None:
         """Called when the connection is closed.
